@@ -1550,3 +1550,58 @@ M("c15-savemeta-close-error-ignored", ["C15"], {"C15": ["R15.6", "R01.7"]}, "bac
 	closed = true
 
 	stat, err := db.fs.Stat(objectFilePath)""")
+
+# ---------------------------------------------------------------- C17
+M("c17-create-without-validation-on-header", ["C17"], {"C17": ["R17.1"]}, "gofakes3.go",
+  """	if err := ValidateBucketName(bucket); err != nil {
+		return err
+	}
+	if err := g.storage.CreateBucket(bucket); err != nil {""", """	if err := ValidateBucketName(bucket); err != nil && r.Header.Get("x-amz-bucket-object-lock-enabled") == "" {
+		return err
+	}
+	if err := g.storage.CreateBucket(bucket); err != nil {""")
+
+M("c17-length-64-accepted", ["C17"], {"C17": ["R17.2"]}, "validation.go",
+  """	if len(name) < 3 || len(name) > 63 {""", """	if len(name) < 3 || len(name) > 64 {""")
+
+M("c17-label-check-skips-last", ["C17"], {"C17": ["R17.2"]}, "validation.go",
+  """	for _, label := range labels {
+		if !bucketNamePattern.MatchString(label) {""", """	for i, label := range labels {
+		if i == len(labels)-1 && len(labels) > 1 {
+			break
+		}
+		if !bucketNamePattern.MatchString(label) {""")
+
+M("c17-ip-check-dropped", ["C17"], {"C17": ["R17.2"]}, "validation.go",
+  """	if net.ParseIP(name) != nil {
+		return ErrorMessage(ErrInvalidBucketName, "bucket names must not be formatted as an IP address")
+	}
+""", """	if ip := net.ParseIP(name); ip != nil && ip.To4() == nil {
+		return ErrorMessage(ErrInvalidBucketName, "bucket names must not be formatted as an IP address")
+	}
+""")
+
+M("c17-pattern-allows-underscore", ["C17"], {"C17": ["R17.4"]}, "validation.go",
+  """var bucketNamePattern = regexp.MustCompile(`^[a-z0-9]([a-z0-9\\.-]+)[a-z0-9]$`)""",
+  """var bucketNamePattern = regexp.MustCompile(`^[a-z0-9]([a-z0-9_\\.-]+)[a-z0-9]$`)""")
+
+M("c17-pattern-two-char-labels", ["C17"], {"C17": ["R17.4"]}, "validation.go",
+  """var bucketNamePattern = regexp.MustCompile(`^[a-z0-9]([a-z0-9\\.-]+)[a-z0-9]$`)""",
+  """var bucketNamePattern = regexp.MustCompile(`^[a-z0-9]([a-z0-9\\.-]*)[a-z0-9]$`)""")
+
+M("c17-pattern-unanchored", ["C17"], {"C17": ["R17.4"]}, "validation.go",
+  """var bucketNamePattern = regexp.MustCompile(`^[a-z0-9]([a-z0-9\\.-]+)[a-z0-9]$`)""",
+  """var bucketNamePattern = regexp.MustCompile(`^[a-z0-9]([a-z0-9\\.-]+)[a-z0-9]`)""")
+
+M("c17-rejection-wrong-code", ["C17"], {"C17": ["R17.1"]}, "validation.go",
+  """		return ErrorMessage(ErrInvalidBucketName, "bucket name must be >= 3 characters and <= 63")""",
+  """		return ErrorMessage(ErrInvalidArgument, "bucket name must be >= 3 characters and <= 63")""")
+
+M("c17-listbuckets-unfiltered", ["C17"], {"C17": ["R17.3"]}, "backend/s3afero/multi.go",
+  """		if err := gofakes3.ValidateBucketName(dirEntry.Name()); err != nil {
+			continue
+		}
+""", """		if err := gofakes3.ValidateBucketName(dirEntry.Name()); err != nil && !dirEntry.IsDir() {
+			continue
+		}
+""")
